@@ -20,6 +20,7 @@ CONSTANTS
   SvcOf <- %(svcof)s
   Manual <- %(manual)s
   MaxChanges = %(n)d
+  MaxFaults = %(faults)d
   PoisonTables = %(poison)s
 %(rest)s
 CHECK_DEADLOCK FALSE
@@ -28,9 +29,9 @@ U3 = dict(inst="MCInst3", nodes='{"n1", "n2"}', nodeof="MCNodeOf3", svcof="MCSvc
 U2 = dict(inst="MCInst2", nodes='{"n1"}', nodeof="MCNodeOf2", svcof="MCSvcOf2", manual="MCManualSmall")
 
 
-def cfg(spec, u, n, rest, poison="FALSE"):
+def cfg(spec, u, n, rest, poison="FALSE", faults=0):
     d = dict(u)
-    d.update(spec=spec, n=n, rest=rest, poison=poison)
+    d.update(spec=spec, n=n, rest=rest, poison=poison, faults=faults)
     return CFG % d
 
 
@@ -39,7 +40,7 @@ MAIN_FILES = ["main/cp_common_test.go", "main/c01_test.go"]
 
 def model_check(ctx):
     mc = ctx.tlc("ControlPlane_MC", cfg_text=cfg("Spec", U3, ctx.pick(3, 4),
-                 "INVARIANTS TypeOK QuiescentCorrect LastGood Isolation\nPROPERTIES MonotoneSnapshot InvalidKeeps NextValidApplied"),
+                 "INVARIANTS TypeOK QuiescentCorrect LastGood Isolation RoutedWerePassing\nPROPERTIES MonotoneSnapshot InvalidKeeps NextValidApplied", faults=1),
                  workers=ctx.pick(8, 12), timeout=ctx.pick(300, 1800), coverage=ctx.thorough)
     ctx.log("MC: %d generated, %d distinct, depth %d, %.0fs" % (mc.generated, mc.distinct, mc.depth, mc.wall))
     if not ctx.need_tlc_ok(mc, "ControlPlane MC"):
@@ -104,7 +105,7 @@ def pipeline(ctx, hist, status="passing", required="one", failstatus="critical",
 
 
 def health(ctx):
-    """every check multiset x 28 configurations through the real passingServices"""
+    """every check multiset x 56 configurations through the real passingServices"""
     cases = os.path.join(ctx.tmp, "c01.health")
     k = ctx.pick(3, 4)
     g = ctx.tlc("Health_MC", cfg_text="SPECIFICATION Spec\nCONSTANT MaxChecks = %d\nINVARIANT Monotone\nCHECK_DEADLOCK FALSE\n" % k,
@@ -116,7 +117,7 @@ def health(ctx):
     if not ctx.need_go_ok(r, "C01 health"):
         return False
     s = r.summary
-    ctx.log("health rule: %d multisets (<=%d checks) x 28 configurations x permutations = %d evaluations, %d failed, %.0fs"
+    ctx.log("health rule: %d multisets (<=%d checks) x 56 configurations x permutations = %d evaluations, %d failed, %.0fs"
             % (s["cases"], k, s["evaluations"], s["fails"], r.wall))
     ctx.cover("health", traces_validated_against_impl=s["cases"], evaluations=s["evaluations"],
               distinct_nontrivial=s["distinct_nontrivial"], samples=s.get("samples") or [], exhaustive=True)
@@ -204,7 +205,7 @@ def run(ctx):
             return
     if not e2e(ctx):
         return
-    ctx.cover(rule="registry histories: all of <=k changes (k=2 quick, 3 thorough; sampled above the cap) plus seeded random ones, each applied step by step (a seeded third of the health changes under snapshot/catalog skew); health rule: every multiset of <=3 (quick) / <=4 (thorough) checks x 28 configurations; non-trivial = multiset of >=2 checks routing at least one instance")
+    ctx.cover(rule="registry histories: all of <=k changes (k=2 quick, 3 thorough; sampled above the cap) plus seeded random ones, each applied step by step (a seeded third of the health changes under snapshot/catalog skew); health rule: every multiset of <=3 (quick) / <=4 (thorough) checks x 56 configurations; non-trivial = multiset of >=2 checks routing at least one instance")
 
 
 def one_pipeline(ctx, hist, st, req, fs, selftest, naming="plain"):
@@ -213,8 +214,8 @@ def one_pipeline(ctx, hist, st, req, fs, selftest, naming="plain"):
         return False
     s = g.summary
     ctx.log("configuration: accepted=%s checksRequired=%s failing-check-status=%s naming=%s" % (st, req, fs, naming))
-    ctx.log("pipeline: %d histories, %d steps (%d compared, %d under snapshot/catalog skew), %d events, %d failed, %.0fs"
-            % (s["histories"], s["steps"], s["compared"], s["skews"], s["events"], s["fails"], g.wall))
+    ctx.log("pipeline: %d histories, %d steps (%d compared, %d under snapshot/catalog skew, %d with a failed catalog query), %d events, %d failed, %.0fs"
+            % (s["histories"], s["steps"], s["compared"], s["skews"], s.get("catalog_faults", 0), s["events"], s["fails"], g.wall))
     ctx.cover("pipeline", traces_validated_against_impl=s["histories"], evaluations=s["compared"], samples=s.get("samples") or [])
     ctx.take_failures(g, "pipeline")
     if not selftest and not ctx.thorough:
